@@ -101,6 +101,8 @@ type Contract struct {
 	invDone       bool
 	Applies       string // name of the function-valued parameter this function calls (and nothing else writes its invariant's footprint)
 	TypeFramePkgs []string
+	DirectPkg     string
+	DirectFields  []string
 	GhostVars     []GhostVar
 }
 
@@ -211,7 +213,7 @@ func (cs *ContractSet) loadContractFile(path, pkgPath string) error {
 			no   int
 		}{t, i + 1})
 	}
-	keywords := []string{"pred ", "abstract pred ", "func ", "extern func ", "functype ", "requires ", "ensures", "logical ", "loop ", "modifies", "pure", "assert ", "assert[", "ghost ", "when ", "guarded ", "lemma ", "hint ", "by ", "use ", "trusted", "acquires ", "fn ", "ufun ", "axiom ", "deterministic", "frametags ", "opaque pred ", "reveal ", "preserves ", "ghostvar ", "typeframe", "typeframe ", "constructor", "ghostglobal ", "ghostwrites ", "invariant ", "applies "}
+	keywords := []string{"pred ", "abstract pred ", "func ", "extern func ", "functype ", "requires ", "ensures", "logical ", "loop ", "modifies", "pure", "assert ", "assert[", "ghost ", "when ", "guarded ", "lemma ", "hint ", "by ", "use ", "trusted", "acquires ", "fn ", "ufun ", "axiom ", "deterministic", "frametags ", "opaque pred ", "reveal ", "preserves ", "ghostvar ", "typeframe", "typeframe ", "directwrites ", "constructor", "ghostglobal ", "ghostwrites ", "invariant ", "applies "}
 	startsKeyword := func(s string) bool {
 		s = strings.TrimSpace(s)
 		for _, k := range keywords {
@@ -487,6 +489,19 @@ func (cs *ContractSet) loadContractFile(path, pkgPath string) error {
 				for _, x := range strings.Split(strings.TrimSpace(strings.TrimPrefix(t, "typeframe")), ",") {
 					if x = strings.TrimSpace(x); x != "" {
 						cur.TypeFramePkgs = append(cur.TypeFramePkgs, x)
+					}
+				}
+			case strings.HasPrefix(t, "directwrites "):
+				// directwrites <package path>: T.f, T.g   (the only fields of that package's types the body may store to)
+				rest := strings.TrimPrefix(t, "directwrites ")
+				i := strings.Index(rest, ":")
+				if i < 0 {
+					return fmt.Errorf("%s:%d: directwrites <package>: T.f, ...", path, it.no)
+				}
+				cur.DirectPkg = strings.TrimSpace(rest[:i])
+				for _, x := range strings.Split(rest[i+1:], ",") {
+					if x = strings.TrimSpace(x); x != "" {
+						cur.DirectFields = append(cur.DirectFields, x)
 					}
 				}
 			case strings.HasPrefix(t, "preserves "):
